@@ -1,5 +1,6 @@
 # Per-property configuration of the correspondence streams: (name, generator, cases in quick tier, cases in thorough tier)
 import gens as G
+import gens_cov as GC
 import corpus as K
 
 # constant tables re-proved (closed forms, coq/tables) by the checks of the properties whose routines index them
@@ -44,6 +45,12 @@ PROPS = {
     'C20': dict(streams=[('ops', G.gen_ops, 150000, 1000000), ('hash', G.gen_hash, 150000, 1000000), ('hashslice', G.gen_hashslice, 20000, 300000)]),
 }
 
+# coverage-directed families (lib/covfam, DESIGN section 22): appended as a stream of the properties whose operations they drive
+COVFAM = {'C01': (['add', 'sub', 'mul', 'div', 'sqrt'], 40000, 400000), 'C02': (['fma'], 80000, 800000), 'C08': (['rint*', 'nearbyint', 'modf'], 10000, 100000),
+          'C04': (['parse', 'fromstr*'], 300, 2000), 'C14': (['add', 'sub', 'mul', 'div', 'sqrt', 'fma', 'rint*', 'modf'], 30000, 300000),
+          'C15': (['add', 'sub', 'mul', 'div', 'sqrt', 'fma', 'rint*', 'modf', 'parse', 'fromstr*'], 20000, 200000)}
+for _k, (_pats, _nq, _nt) in COVFAM.items(): PROPS[_k]['streams'].append(('covfam', GC.gen_cov(_pats), _nq, _nt))
+
 for _k, _v in TABLES.items(): PROPS[_k]['tables'] = _v
 
 # Intel's vectors (inputs only) as the first stream of every property whose operations they exercise
@@ -61,12 +68,17 @@ LAYER_I = {'C13': ('A,C', ['bid128_is_signed', 'bid128_is_nan', 'bid128_is_inf',
            'C12': ('A', ['bid128_copy', 'bid128_negate', 'bid128_abs', 'bid128_copy_sign']),
            'C09': ('A,B', ['bid128_same_quantum', 'bid128_quantexp', 'bid128_llquantexp', 'bid128_quantum']),
            'C06': ('B', ['bid128_from_int32', 'bid128_from_uint32', 'bid128_from_int64', 'bid128_from_uint64']),
-           'C18': ('D', ['bid128_total_order', 'bid128_total_order_mag']),
-           'C11': ('D', ['bid128_scalbln']),
+           'C18': ('T', ['bid128_total_order', 'bid128_total_order_mag']),
+           'C11': ('D,F', ['bid128_scalbln', 'bid128_scalbn', 'bid128_ldexp', 'bid_get_BID128']),
            'C19': ('E', ['bid_to_dpd128', 'bid_dpd_to_bid128']),
            'C03': ('G', ['bid128_quiet_greater', 'bid128_quiet_greater_equal', 'bid128_quiet_greater_unordered', 'bid128_quiet_less',
                          'bid128_quiet_less_equal', 'bid128_quiet_less_unordered', 'bid128_quiet_not_greater', 'bid128_quiet_not_less',
                          'bid128_quiet_ordered', 'bid128_quiet_unordered', 'bid128_signaling_greater', 'bid128_signaling_greater_equal',
                          'bid128_signaling_greater_unordered', 'bid128_signaling_less', 'bid128_signaling_less_equal',
                          'bid128_signaling_less_unordered', 'bid128_signaling_not_greater', 'bid128_signaling_not_less'])}
+# group H: the shared multi-word helpers of bid_internal.rs, each proved exact for all inputs ("helper <name> is exact"): obligations of the
+# properties whose routines are built on them, so that a change to a helper which matters only for a 2^-64 word pattern is reported there too
+import os as _os, re as _re
+_HELPERS = _re.findall(r"'(__\w+)'", _re.search(r'HELPERS = \[(.*?)\]', open(_os.path.join(_os.path.dirname(_os.path.dirname(_os.path.abspath(__file__))), 'layerI', 'rs2v.py')).read(), _re.S).group(1))
+for _k in ('C01', 'C02', 'C10', 'C16'): LAYER_I[_k] = ('H', list(_HELPERS))
 for _k, _v in LAYER_I.items(): PROPS[_k]['layerI'] = _v
